@@ -22,11 +22,12 @@ RULES["C20"] = (
     "operation sequences over insert(key in {0,1,2})/pull/peek/extract(any key ever issued) on the real "
     "PriorityQueue and IndexedPriorityQueue, every result compared with a BTreeMap<(key, insertion seq)> "
     "reference: (a) all sequences of the stated length (exhaustive), (b) seeded random sequences biased "
+    "(thorough tier also: part marathon, 2^32 insertions into one indexed queue followed by an equal-key FIFO test and a stale-key extraction) "
     "towards slot recycling, one in four made of waves (fill to 3-2500 live entries, drain completely, refill, extract through keys of earlier waves); a case is non-trivial when it broke a tie between equal keys or extracted "
     "through a stale key; distinct = distinct operation sequences (hash)")
 PLAN["C20"] = {
     "quick": [job("native", "exhaustive", 16, 300), job("native", "random", 16, 300)],
-    "thorough": [job("native", "exhaustive", 16, 1800), job("native", "random", 16, 1800),
+    "thorough": [job("native", "exhaustive", 16, 1800), job("native", "random", 16, 1800), job("native", "marathon", 1, 3000),
                  job("miri", "exhaustive", 1, 900), job("miri", "random", 1, 900)],
     "min_evaluations": {"quick": 1000, "thorough": 1000},
     "assumptions": ["the verif_hooks wrappers Pq/IndexedPq forward 1:1 to the crate-private queues",
@@ -102,8 +103,9 @@ RULES["C09"] = ("timer benches with keyed/auto-keyed one-shot and periodic actio
 sim_plan("C09", ["timer", "bulk"], miri_parts=["timer"])
 LEVEL["C10"] = "exploration"
 RULES["C10"] = ("timer benches with periodic actions (periods down to 1 ns, commensurable; other actions scheduled, cancelled and bursts of same-time actions around them), random partitions of the horizon into step/step_until; occurrence times compared with the "
-                "reference interpreter; non-trivial = bench containing a periodic action whose handlers ran")
-sim_plan("C10", ["timer"])
+                "reference interpreter; part extreme: periods of Duration::MAX, half the representable range and 2^64 ns + 5 s through every periodic entry point: three steps must process exactly the representable occurrences t0 + k*p; "
+                "non-trivial = bench containing a periodic action whose handlers ran / extreme-period request accepted")
+sim_plan("C10", ["timer", "extreme"])
 LEVEL["C16"] = "exploration"
 RULES["C16"] = ("hierarchical DAG benches (sub-models to depth 3) whose init scripts send events/queries to not-yet-initialised models; exactly one init per model inside SimInit::init and before "
                 "its first handler; Context/BuildContext names equal the dotted path; early messages delivered (reference interpreter); part reports: a model that is a sub-model, owns sub-models (two levels) or sits in the "
